@@ -2167,6 +2167,7 @@ def partial_eliminate(term, eqs):
     sub = []
     remaining = []
     sigs = {}
+    handled = set()
     count_factor, dropped = [], []
     rot_guards = []
     ap = lambda e: z3.substitute(e, *sub) if sub else e
@@ -2190,6 +2191,8 @@ def partial_eliminate(term, eqs):
             sub.append((bnd.v, nv))
             continue
         if bnd.kind == "def":
+            if id(bnd) in handled:
+                continue
             a2, d2 = ap(bnd.a), ap(bnd.d)
             if any(_contains(a2, v) or _contains(d2, v) for v in remaining):
                 remaining += [bnd.q, bnd.r]
@@ -2214,6 +2217,16 @@ def partial_eliminate(term, eqs):
             sol, extra_g = _rotation_rule(bnd, term.binders, eqs, ap)
             if sol is not None:
                 rot_guards.append(extra_g)
+        if sol is None:
+            # divmod inversion: (q, r) := divmod(v + c, d) is a bijection of v; when the equalities pin BOTH q and r,
+            # v = q*d + r - c (the definedness 0 <= r < d stays in the guard through the binder's own constraint)
+            sol, qr = _divmod_inversion(bnd, list(term.binders), eqs, ap, remaining)
+            if sol is not None:
+                sub.append((bnd.v, sol))
+                for bb, sq, sr in qr:
+                    sub += [(bb.q, sq), (bb.r, sr)]
+                    handled.add(id(bb))
+                continue
         if sol is None and bnd.lo is not None and bnd.hi is not None:
             lo_, hi_ = ap(_lift(bnd.lo)), ap(_lift(bnd.hi))
             if _provable(hi_ == lo_ + 1):
@@ -2237,6 +2250,34 @@ def partial_eliminate(term, eqs):
         coef = coef * C(cf)
     partial_eliminate.last_sigs = sigs
     return remaining, z3.simplify(guard), coef
+
+
+def _divmod_inversion(bnd, binders, eqs, ap, remaining):
+    pos = binders.index(bnd)
+    for bb in binders[pos + 1:]:
+        if bb.kind != "def":
+            continue
+        a, d = ap(bb.a), ap(bb.d)
+        if not _contains(a, bnd.v) or _contains(d, bnd.v):
+            continue
+        c = z3.simplify(a - bnd.v)
+        if _contains(c, bnd.v):
+            continue
+        others = [v for b2 in binders[pos + 1:] if b2 is not bb for v in bvars(b2)]
+        bad = [bnd.v, bb.q, bb.r] + list(remaining) + others
+        solq = solr = None
+        for l, r in eqs:
+            if solq is None:
+                cand = _solve_for(ap(l), ap(r), bb.q)
+                if cand is not None and not any(_contains(cand, x) for x in bad):
+                    solq = cand
+            if solr is None:
+                cand = _solve_for(ap(l), ap(r), bb.r)
+                if cand is not None and not any(_contains(cand, x) for x in bad):
+                    solr = cand
+        if solq is not None and solr is not None:
+            return z3.simplify(solq * d + solr - c), [(bb, solq, solr)]
+    return None, []
 
 
 def match_leftover(la, lb, ta, tb, conj_b=False):
